@@ -49,22 +49,32 @@ func tagQueries() []*query {
 	}
 	for _, s := range append(append([]string(nil), tagServices...), "old") {
 		s := s
-		add("ServiceNodes", s, s, func(st *state.Store, ws memdb.WatchSet) (uint64, any, error) { return x3(st.ServiceNodes(ws, s, nil, "")) })
-		add("CheckServiceNodes", s, s, func(st *state.Store, ws memdb.WatchSet) (uint64, any, error) { return x3(st.CheckServiceNodes(ws, s, nil, "")) })
+		add("ServiceNodes", s, s, func(st *state.Store, ws memdb.WatchSet) (uint64, any, error) {
+			return x3(st.ServiceNodes(ws, s, nil, ""))
+		})
+		add("CheckServiceNodes", s, s, func(st *state.Store, ws memdb.WatchSet) (uint64, any, error) {
+			return x3(st.CheckServiceNodes(ws, s, nil, ""))
+		})
 		for _, f := range tagFilters {
 			f := f
 			arg := s + "," + strings.Join(f, "+")
-			add("ServiceTagNodes", arg, s, func(st *state.Store, ws memdb.WatchSet) (uint64, any, error) { return x3(st.ServiceTagNodes(ws, s, f, nil, "")) })
+			add("ServiceTagNodes", arg, s, func(st *state.Store, ws memdb.WatchSet) (uint64, any, error) {
+				return x3(st.ServiceTagNodes(ws, s, f, nil, ""))
+			})
 			add("CheckServiceTagNodes", arg, s, func(st *state.Store, ws memdb.WatchSet) (uint64, any, error) {
 				return x3(st.CheckServiceTagNodes(ws, s, f, nil, ""))
 			})
 		}
 	}
-	add("Services", "", "", func(st *state.Store, ws memdb.WatchSet) (uint64, any, error) { return x3(st.Services(ws, nil, "", false)) })
+	add("Services", "", "", func(st *state.Store, ws memdb.WatchSet) (uint64, any, error) {
+		return x3(st.Services(ws, nil, "", false))
+	})
 	add("ServiceList", "", "", func(st *state.Store, ws memdb.WatchSet) (uint64, any, error) { return x3(st.ServiceList(ws, nil, "")) })
 	for _, n := range tagNodes {
 		n := n
-		add("NodeServices", n, "", func(st *state.Store, ws memdb.WatchSet) (uint64, any, error) { return x3(st.NodeServices(ws, n, nil, "")) })
+		add("NodeServices", n, "", func(st *state.Store, ws memdb.WatchSet) (uint64, any, error) {
+			return x3(st.NodeServices(ws, n, nil, ""))
+		})
 	}
 	return qs
 }
@@ -214,7 +224,9 @@ func tagHistories(run *hx.Run, n, maxOps int) {
 			descs = append(descs, fmt.Sprintf("@%d %s => %s", e.idx, e.desc, clip(res, 80)))
 			run.Tag("tag-op:" + e.kind)
 			wi := &writeInfo{kind: e.kind, desc: e.desc}
-			wi.shape = func(q *query, ob, oa obs) string { return shapeOfWide(q, e.trees, &before, &after, gwBefore, gwAfter, ob, oa) }
+			wi.shape = func(q *query, ob, oa obs) string {
+				return shapeOfWide(q, e.trees, &before, &after, gwBefore, gwAfter, ob, oa)
+			}
 			sw.across(run, w.Store(), wi, replay, func(v *verdict) {
 				if v.changed {
 					nontrv = true
